@@ -6,6 +6,9 @@
 #include <cstring>
 #include <type_traits>
 #include <utility>
+#if __cplusplus >= 202002L
+#include <compare>
+#endif
 
 #include "core.hpp"
 
@@ -24,6 +27,9 @@ struct Val {
   bool operator>(const Val &o) const { return key > o.key; }
   bool operator<=(const Val &o) const { return key <= o.key; }
   bool operator>=(const Val &o) const { return key >= o.key; }
+#if __cplusplus >= 202002L
+  std::strong_ordering operator<=>(const Val &o) const { return key <=> o.key; }
+#endif
 };
 
 struct InjectedFault {
@@ -240,6 +246,9 @@ struct Tracked {
   bool operator>(const Tracked &o) const { return o < *this; }
   bool operator<=(const Tracked &o) const { return !(o < *this); }
   bool operator>=(const Tracked &o) const { return !(*this < o); }
+#if __cplusplus >= 202002L
+  std::strong_ordering operator<=>(const Tracked &o) const { check_live("read(<=>)"); o.check_live("read(<=>)"); return key <=> o.key; }
+#endif
 
   // opt-in / opt-out of amc's trait
   typedef typename std::conditional<KIND == 0, std::true_type, std::false_type>::type trivially_relocatable;
@@ -282,6 +291,9 @@ struct TC4 {
   bool operator>(const TC4 &o) const { return key > o.key; }
   bool operator<=(const TC4 &o) const { return key <= o.key; }
   bool operator>=(const TC4 &o) const { return key >= o.key; }
+#if __cplusplus >= 202002L
+  std::strong_ordering operator<=>(const TC4 &o) const { return key <=> o.key; }
+#endif
 };
 struct TC1 {
   uint8_t b;  // key in the low 3 bits, payload in the high 5
@@ -295,6 +307,9 @@ struct TC1 {
   bool operator>(const TC1 &o) const { return k() > o.k(); }
   bool operator<=(const TC1 &o) const { return k() <= o.k(); }
   bool operator>=(const TC1 &o) const { return k() >= o.k(); }
+#if __cplusplus >= 202002L
+  std::strong_ordering operator<=>(const TC1 &o) const { return k() <=> o.k(); }
+#endif
 };
 struct TC12 {
   int32_t key;
@@ -309,6 +324,9 @@ struct TC12 {
   bool operator>(const TC12 &o) const { return key > o.key; }
   bool operator<=(const TC12 &o) const { return key <= o.key; }
   bool operator>=(const TC12 &o) const { return key >= o.key; }
+#if __cplusplus >= 202002L
+  std::strong_ordering operator<=>(const TC12 &o) const { return key <=> o.key; }
+#endif
 };
 // 8-byte, pointer-aligned trivially copyable element (exactly one pointer slot)
 struct TC8 {
@@ -323,6 +341,9 @@ struct TC8 {
   bool operator>(const TC8 &o) const { return key > o.key; }
   bool operator<=(const TC8 &o) const { return key <= o.key; }
   bool operator>=(const TC8 &o) const { return key >= o.key; }
+#if __cplusplus >= 202002L
+  std::strong_ordering operator<=>(const TC8 &o) const { return key <=> o.key; }
+#endif
 };
 
 // ---------------------------------------------------------------- uniform access
